@@ -523,6 +523,12 @@ def _c07_o1(W, ob):
 
 from . import inventory
 
+
+def _c17_o2(W, ob):
+    from . import c17 as _m
+    return _m.o2(W, ob)
+
+
 OBLIGATIONS = [
     ('C01.O1', 'rollback before simulate', 'In advance_rollback_frame every path to the new-frame input fetch passes a '
      'call that must-call check_simulation_consistency and the local input registration; adjust_gamestate runs exactly '
@@ -548,6 +554,7 @@ OBLIGATIONS = [
     ('C01.O7', 'earliest wrong frame', 'check_simulation_consistency is a NULL-aware min-reduction over the pending '
      'disconnect frame and every queue marker; adjust_gamestate loads that frame (sparse: last saved <= it).', o7),
     ('C01.O16', 'a peer is dropped by the timeout rule only (= C07.O1)', 'faults that end before the disconnect timeout must not cost a player: Disconnected is raised under last_recv_time + disconnect_timeout < now and nothing else, NetworkInterrupted under the notify delay; see C07.O1', _c07_o1),
+    ('C01.O17', 'canonical handle order on both ends of the wire (= C17.O2)', 'the sender serialises its local players in ascending handle order and the receiver assigns the i-th decoded chunk to handles[i]: UdpProtocol::new sorts the handles it stores; see C17.O2', _c17_o2),
     ('C01.H', 'helpers the rules above rely on', 'the bodies of the helpers named by this property\'s rules compute what the rules assume (last_recv_frame, confirmed_input, player_input); see rules/helpers.py', helpers.bundle('last_recv_frame', 'confirmed_input', 'player_input', 'from_inputs')),
     ('C01.O14', 'received bytes decode to what was sent (= C14.O4)', 'see C14.O4: the reader of the run-length layer uses the writer\'s table', _c14_o4, {'deps': True}),
     ('C01.O15', 'wire configuration: reader = writer (= C03.O15)', 'see C03.O15', _c03_o15),
@@ -557,4 +564,5 @@ OBLIGATIONS = [
     ('C01.M', 'must-call floor', 'the calls listed for this property in tables/must_call.json are made on every path from the entry of their function to a normal return (interprocedural must-call): a new early return, fast path or extra condition in front of one of them is reported; see rules/mustcall.py', mustcall.rule_for('C01')),
     ('C01.V', 'no unreviewed condition in the pinned helpers', 'for each helper whose body this property\'s rules pin (tables/condition_terms.json), the terms its path conditions are built from (fields, parameters, call results -- no constants, operators or local names) are a subset of the reviewed vocabulary: one more `if` in front of a pinned result (a lock that may time out, "only while an endpoint is running") is reported; see rules/vocab.py', vocab.rule_for('C01')),
     ('C01.S', 'state inventory', 'every field of the structs this property\'s rules read (tables/state.json) is known, and is written only by its reviewed writers (or helpers only they call): a new field is new state across calls -- a cache, a flag, a stored deadline -- that nothing has shown to stay in step; a new writer is a second place that resets, re-arms or moves something; see rules/inventory.py', inventory.state_rule_for('C01')),
+    ('C01.K', 'call inventory', 'every reviewed call of a function that writes state (tables/call_edges.json, callers in the structs this property\'s rules read) is still made, directly or through helpers: a call deleted as redundant is reported; see rules/inventory.py', inventory.call_rule_for('C01')),
 ]
